@@ -1,12 +1,8 @@
 """C18 — invalid children are reported, never returned."""
-META = dict(
-    trusted_base=["H1-H4: HMAC-SHA512 is an uninterpreted total function with 64-byte output (every output is a case)",
-                  "E1-E6: assumed contracts of ecdsa 0.19 (SigningKey.from_string range check, group axioms)"],
-    assumptions=["the ecdsa back end is the one that runs (pysecp256k1 native library absent): the pysecp256k1 branch is not verified"],
-)
+from . import contract_items, COMMON_TB, COMMON_ASSUME
+META = dict(trusted_base=COMMON_TB, assumptions=COMMON_ASSUME + [
+    "every HMAC-SHA512 output is a case (uninterpreted PRF), so the 2^-127 corners are ordinary symbolic cases"])
 
 
 def items(tier):
-    return [
-        dict(kind="contract", spec="contracts.c_bip32:PrvCkd", only=["raises.", "ensures.no_child_appended_on_error", "frame"]),
-    ]
+    return contract_items("C18")
